@@ -382,3 +382,25 @@ def canon(v):
         o, c = ("[", "]") if isinstance(v, list) else ("(", ")")
         return o + ", ".join(canon(x) for x in v) + c
     return repr(v)
+
+
+def run_guarded(f, watchdog, hung_value):
+    """run f() in a thread; if it does not come back within `watchdog` seconds return `hung_value` (the thread is left
+    behind as a daemon: a blocking call that never returns cannot be interrupted)"""
+    import threading
+    box = {}
+
+    def body():
+        try:
+            box["r"] = f()
+        except BaseException as e:  # noqa: BLE001
+            box["e"] = e
+    th = threading.Thread(target=body, daemon=True)
+    th.start()
+    th.join(watchdog)
+    if th.is_alive():
+        HUNG.append(th)
+        return hung_value
+    if "e" in box:
+        raise box["e"]
+    return box["r"]
